@@ -17,7 +17,7 @@ EFFECTFUL = {
     "send", "try_send", "blocking_send", "poll_recv", "recv", "try_recv", "close", "is_closed",
     "upgrade", "strong_count", "channel", "blocking_recv",
     "on_start", "poll_on_run", "on_run", "on_stop", "handle", "on_tell_result",
-    "drop", "lock", "fetch_add", "get", "set", "vx_drop_opt_guard", "drop__WaitForGuard",
+    "drop", "lock", "fetch_add", "get", "get_or_init", "set", "vx_drop_opt_guard", "drop__WaitForGuard",
     "vx_emit_dead_letter",
     # extracted, non-pure
     "handle_message", "vx_dyn__handle_message", "handle_message__PayloadHandler", "run_actor_lifecycle", "tell", "tell_with_timeout", "ask", "ask_with_timeout",
@@ -90,6 +90,23 @@ LC_INV_CH = [
     C("lifecycle.inv.unlocked", "C12", "!w.lock_held()"),
     C("lifecycle.inv.metrics_guard_closed", "C20", "mmon_idle(*w)"),
 ]
+# The monitor's `bad` flag carries the reason of the first bad step (vocab.rs `why_of` / `blames`): one clause per property says
+# "no violation of THIS property has been recorded", so that a change is attributed to the properties it breaks and to no others.
+# The structural invariants are of the form `bad || ..` (nothing further is claimed once a violation has been recorded).
+MON_PROPS = [1, 2, 4, 5, 6, 7, 8]
+def LC_OKS(prefix, expr):
+    return [C("%s.no_violation_recorded.C%02d" % (prefix, p), "C%02d" % p, "ok_for(%s, %d)" % (expr, p)) for p in MON_PROPS]
+def LC_HEAD(prefix):
+    return [
+        C(prefix + ".started_not_stopped", "C04", "ph_started_not_stopped(actor.mon())"),
+        C(prefix + ".no_pending_control", "C06", "ph_no_pending_control(actor.mon())"),
+        C(prefix + ".no_pending_close", "C07 C02 C01", "ph_no_pending_close(actor.mon())"),
+        C(prefix + ".no_pending_envelope", "C01 C02", "ph_no_pending_envelope(actor.mon())"),
+        C(prefix + ".no_pending_run_err", "C04 C05", "ph_no_pending_run_err(actor.mon())"),
+        C(prefix + ".not_mid_idle", "C08", "ph_not_mid_idle(actor.mon())"),
+        C(prefix + ".not_killed_yet", "C04 C05 C06", "!killed"),
+        C(prefix + ".idle_flag_tracks_ok_false", "C08", "idle_flag_inv(actor, idle_enabled)"),
+    ]
 SPECS["actor.rs::run_actor_lifecycle"] = dict(
     attrs=["#[verifier::exec_allows_no_decreases_clause]"],
     select_carrier="actor",
@@ -103,35 +120,36 @@ SPECS["actor.rs::run_actor_lifecycle"] = dict(
         C("lifecycle.pre.owns_strong_ref", "C07", "old(w).own_strong() == Some(actor_ref.mbx_chan())"),
     ],
     ensures=[
-        C("lifecycle.post.result_matches_history", "C04 C05 C06 C08 C01 C02 C07", "lifecycle_post(args, actor_ref, r)"),
+        C("lifecycle.post.result_reports_how_it_ended", "C05", "lifecycle_post(args, actor_ref, r)"),
+    ] + [C("lifecycle.post.no_violation_recorded.C%02d" % p, "C%02d" % p, "result_ok_for(r, %d)" % p) for p in MON_PROPS] + [
         C("lifecycle.post.metrics_guard_closed", "C20", "mmon_idle(*final(w))"),
         C("lifecycle.post.unlocked", "C12", "!final(w).lock_held()"),
         C("lifecycle.post.scope_closed", "C14 C15", "final(w).current_actor() is None"),
     ],
     loops={
         "loop#1": dict(
-            invariant_except_break=[
-                C("lifecycle.inv.monitor_at_head", "C04 C06 C08 C01 C02", "loop_inv(actor, idle_enabled, killed)"),
-            ],
-            invariant=[C("lifecycle.inv.started", "C04 C05", "T::start_spec(args, actor_ref) is Ok")] + LC_INV_CH,
+            invariant_except_break=LC_HEAD("lifecycle.inv"),
+            invariant=[C("lifecycle.inv.started", "C04 C05", "T::start_spec(args, actor_ref) is Ok")] + LC_INV_CH + LC_OKS("lifecycle.inv", "actor.mon()"),
             ensures=[
                 C("lifecycle.loop_exit.stopped_ok", "C04 C05 C07",
-                  "!actor.mon().bad && (actor.mon().ph matches Ph::Stopped(k, None, c) && k == killed && !(c is RunErr))"),
+                  "actor.mon().bad || (actor.mon().ph matches Ph::Stopped(k, None, c) && k == killed && !(c is RunErr))"),
             ],
         ),
         "select#1": dict(
-            invariant_except_break=[
-                C("lifecycle.select.inv.monitor_at_head", "C06 C08", "loop_inv(actor, idle_enabled, killed)"),
-            ],
+            invariant_except_break=LC_HEAD("lifecycle.select.inv"),
             invariant=[
-                C("lifecycle.select.inv.not_killed", "C04 C06", "!killed"),
-                C("lifecycle.select.inv.guard_is_flag", "C08 C06 C04 C01", "__sel1_g0 && __sel1_g1 && __sel1_g2 == idle_enabled"),
-            ] + LC_INV_CH,
+                C("lifecycle.select.inv.control_branch_unconditional", "C06 C07 C08", "__sel1_g0"),
+                C("lifecycle.select.inv.mailbox_branch_unconditional", "C01 C02 C07 C08", "__sel1_g1"),
+                C("lifecycle.select.inv.idle_guard_is_flag", "C08", "__sel1_g2 == idle_enabled"),
+            ] + LC_INV_CH + LC_OKS("lifecycle.select.inv", "actor.mon()"),
             ensures=[
-                C("lifecycle.select.fired_branch_matches_monitor", "C04 C06 C08 C01", "sel_post3(actor, __sel1_out)"),
+                C("lifecycle.select.control_branch_fired_matches_monitor", "C06 C07", "sel_post_b0(actor, __sel1_out)"),
+                C("lifecycle.select.mailbox_branch_fired_matches_monitor", "C01 C02", "sel_post_b1(actor, __sel1_out)"),
+                C("lifecycle.select.taken_message_is_of_this_mailbox", "C01 C07", "sel_post_b1_fits(actor, __sel1_out)"),
+                C("lifecycle.select.idle_branch_fired_matches_monitor", "C08 C04", "sel_post_b2(actor, __sel1_out)"),
                 C("lifecycle.select.idle_only_if_enabled", "C08", "__sel1_out is B2 ==> idle_enabled"),
                 C("lifecycle.select.idle_off_tracked", "C08",
-                  "if __sel1_out matches Out3::B2(Ok(false)) { idle_enabled && actor.mon().idle_off } else { idle_enabled == !actor.mon().idle_off }"),
+                  "actor.mon().bad || (if __sel1_out matches Out3::B2(Ok(false)) { idle_enabled && actor.mon().idle_off } else { idle_enabled == !actor.mon().idle_off })"),
             ],
         ),
     },
@@ -576,7 +594,8 @@ FUNCTION_PROPERTIES = {
 FEATURE_INDEPENDENT = {"C01", "C02", "C03", "C04", "C05", "C06", "C07", "C08", "C09", "C10", "C11", "C13", "C16", "C17"}
 
 # properties part of whose code is not under contract: fixed bounded scenarios stand in (labelled bounded)
-ALWAYS_STAND_IN = {"C17": ["blocking_timeout", "blocking_api"], "C10": ["blocking_timeout"], "C13": ["blocking_timeout", "blocking_api"]}
+ALWAYS_STAND_IN = {"C17": ["blocking_timeout", "blocking_api"], "C10": ["blocking_timeout"], "C13": ["blocking_timeout", "blocking_api"],
+                   "C01": ["blocking_timeout"]}
 # fixed scenarios that stand in when a property's text is undecided by extraction (besides the schedule explorer)
 _DD = ["dd_cycles", "dd_no_residue", "dd_cycle_first_edge_parked"]
 UNDECIDED_STAND_IN = {
